@@ -126,6 +126,11 @@ func familyExt(family, id string, g *Gen, blocks, maxTx int) *Scenario {
 			blocks = 18
 		}
 		return g.GovStory(id, blocks)
+	case "govfee":
+		if blocks < 14 {
+			blocks = 14
+		}
+		return g.GovFeeStory(id, blocks)
 	case "govmix":
 		return g.Mixed(id, blocks, maxTx, GovKinds)
 	case "ons":
@@ -215,7 +220,7 @@ func familyKindsExt(family string) []string {
 		return EthKinds
 	case "stake":
 		return StakeKinds
-	case "gov":
+	case "gov", "govfee":
 		return GovKinds
 	case "ons", "onsmix":
 		return OnsKinds
